@@ -30,6 +30,7 @@ MUTANTS = [
      ' *         if self.success:             # <<<<<<<<<<<<<<\n *             return np.ascontiguousarray(\n *                 self.full_solution_view,\n*/\n  if (__pyx_v_self->success) {',
      ' *         if self.success:             # <<<<<<<<<<<<<<\n *             return np.ascontiguousarray(\n *                 self.full_solution_view,\n*/\n  if (1) {', 1),
     ('raise_on_fail-never-passed-on', '__pyx_v_verbose, __pyx_v_warnings, __pyx_v_raise_on_fail);', '__pyx_v_verbose, __pyx_v_warnings, 0);', 1),
+    ('raise_on_fail-always-on', '__pyx_v_verbose, __pyx_v_warnings, __pyx_v_raise_on_fail);', '__pyx_v_verbose, __pyx_v_warnings, 1);', 1),
     # off by one: the in-place scaling touches one element past the end of each caller array (the restore does not)
     ('scaling-one-element-past-the-end', 'nondimensional_cf_non_dimensionalize_physicals(__pyx_v_total_slices, ',
      'nondimensional_cf_non_dimensionalize_physicals(__pyx_v_total_slices + 1, ', 1),
